@@ -17,13 +17,21 @@ T = {"threads": ["o1", "f1", "c1", "c2", "c3"], "bounds": [2, 5], "budget": 8000
                  "c1": [{"k": "collect"}, {"k": "collect"}], "c2": [{"k": "collect"}, {"k": "sum"}], "c3": [{"k": "collect"}, {"k": "count"}]}}
 
 
+# the same histories with every value and bound shifted down by 1000: all stored sums are negative
+Rneg = dict(R, shift=1000)
+Qneg = dict(Q, shift=1000)
+
+
 def run(ctx):
     exe = build_harness()
     stats, samples = new_stats(), []
     if ctx.quick:
         run_scenario(ctx, "C03", exe, Q, "Q", stats, samples, model=True, nrandom=200, vias=("direct",), liveness=True)
         run_scenario(ctx, "C03", exe, R, "R", stats, samples, model=False, nrandom=300, vias=("direct", "vec"), liveness=False)
+        run_scenario(ctx, "C03", exe, Qneg, "Qneg", stats, samples, model=False, nrandom=200, vias=("direct",), liveness=False, check=False)
     else:
+        run_scenario(ctx, "C03", exe, Qneg, "Qneg", stats, samples, model=False, nrandom=3000, vias=("direct", "vec"), liveness=False, check=False)
+        run_scenario(ctx, "C03", exe, Rneg, "Rneg", stats, samples, model=False, nrandom=5000, vias=("direct",), liveness=False, check=False)
         run_scenario(ctx, "C03", exe, Q, "Q", stats, samples, model=True, nrandom=3000, vias=("direct", "vec", "registry"), liveness=True)
         run_scenario(ctx, "C03", exe, R, "R", stats, samples, model=False, nrandom=10000, vias=("direct", "vec", "registry"), liveness=True)
         run_scenario(ctx, "C03", exe, T, "T", stats, samples, model=False, nrandom=10000, vias=("direct",), liveness=False, check=False)
